@@ -124,7 +124,11 @@ def compile_module(objects, options=None, workdir=None, name="m", cc="gcc", cfla
     """Generate + compile + load.  Raises Rejected (Python exception in FFCx) or CompileError."""
     try:
         header, source, names = generate_code(objects, options, prefix=prefix)
-    except Exception as e:  # noqa: BLE001 - classification is the point
+    except KeyboardInterrupt:
+        raise
+    except BaseException as e:  # noqa: BLE001 - classification is the point (UFL's ArityMismatch derives from BaseException)
+        if type(e).__name__ in ("SystemExit", "GeneratorExit") or type(e).__module__.startswith("hypothesis"):
+            raise
         raise Rejected(e) from e
     so = cc_compile(source, workdir, name, cc=cc, cflags=cflags)
     ffi = cffi.FFI()
